@@ -6,6 +6,6 @@ cd $WT || exit 2
 CMD=$(python3 -c "import json;print(json.load(open('$OUT/meta.json'))['demo_cmd'])")
 echo "demo_cmd: $CMD"
 echo "== with change"; (eval "$CMD") 2>&1 | grep -E "^test result|panicked|FAILED|error(\[|:)" | head -8
-git stash push -q -- src/ && echo "== without change" && (eval "$CMD") 2>&1 | grep -E "^test result|panicked|FAILED|error(\[|:)" | head -5; git stash pop -q
+git diff -- src/ > /tmp/seed_verify_$TAG.diff; git apply -R /tmp/seed_verify_$TAG.diff && echo "== without change" && (eval "$CMD") 2>&1 | grep -E "^test result|panicked|FAILED|error(\[|:)" | head -5; git apply /tmp/seed_verify_$TAG.diff; rm -f /tmp/seed_verify_$TAG.diff
 echo "== existing suite with change"; (mv tests/seed_demo.rs /tmp/seed_demo_$ID.rs; cargo test --workspace --no-fail-fast --offline 2>&1 | grep -E "^test result|FAILED|error" | head -6; mv /tmp/seed_demo_$ID.rs tests/seed_demo.rs)
 git diff --stat -- src/
